@@ -675,6 +675,8 @@ impl LockFreePool {
                 if current_head == u32::MAX {
                     break; // No free blocks
                 }
+                #[cfg(zipora_verif)]
+                crate::verif_hooks::sched_point("fl.pop.loaded", current_head as u64, 0);
                 
                 // Get next pointer from the free block
                 let next_head = unsafe {
@@ -683,6 +685,8 @@ impl LockFreePool {
                     let ptr = memory.offset_ptr(current_head as usize) as *const u32;
                     *ptr
                 };
+                #[cfg(zipora_verif)]
+                crate::verif_hooks::sched_point("fl.pop.next", current_head as u64, next_head as u64);
                 
                 // Try to update head atomically
                 match head.head.compare_exchange_weak(
@@ -693,6 +697,8 @@ impl LockFreePool {
                 ) {
                     Ok(_) => {
                         head.count.fetch_sub(1, Ordering::Relaxed);
+                        #[cfg(zipora_verif)]
+                        crate::verif_hooks::sched_point("fl.pop.cas", current_head as u64, 1);
                         self.fragment_size.fetch_sub(size, Ordering::Relaxed);
                         return Ok(MemOffset::new(current_head as usize));
                     }
@@ -733,6 +739,8 @@ impl LockFreePool {
                     let ptr = memory.offset_ptr(offset.to_usize()) as *mut u32;
                     *ptr = current_head;
                 }
+                #[cfg(zipora_verif)]
+                crate::verif_hooks::sched_point("fl.push.linked", offset.0 as u64, current_head as u64);
                 
                 // Try to update head atomically
                 match head.head.compare_exchange_weak(
@@ -743,6 +751,8 @@ impl LockFreePool {
                 ) {
                     Ok(_) => {
                         head.count.fetch_add(1, Ordering::Relaxed);
+                        #[cfg(zipora_verif)]
+                        crate::verif_hooks::sched_point("fl.push.cas", offset.0 as u64, 1);
                         self.fragment_size.fetch_add(size, Ordering::Relaxed);
                         return Ok(());
                     }
